@@ -20,6 +20,8 @@ import (
 //   via    = 0: restful.NewResponse(writer) driven directly
 //            1: the calls are made by a route function inside a container (Dispatch); StatusCode()/ContentLength()
 //               are read by a container filter after the handler returned
+//            2: the calls (Write / WriteHeader only) are made by a plain http.Handler registered with HandleWithFilter,
+//               reached through ServeHTTP; the numbers are read by a container filter after the handler returned
 //   op     = (0 bytes) Write | (1 status) WriteHeader | (2 status reason api) WriteErrorString/WriteError
 //          | (3 status found vnil marshal accept value api) entity writers | (4 pretty) PrettyPrint
 // The harness fills in `found` (asked from the implementation: Response.EntityWriter) and `marshal` (the Write
@@ -207,7 +209,19 @@ func genResp(r *Rng) Sx {
 			}
 		}
 	}
-	return L(script, B(comp), B(r.Bool()), r.Intn(2), genRespOps(r))
+	pretty, via, ops := r.Bool(), r.Intn(2), genRespOps(r)
+	if r.Pct(15) {
+		// a plain http.Handler registered with HandleWithFilter: it can only Write and WriteHeader
+		via = 2
+		kept := Ls{}
+		for _, op := range ops {
+			if k := sxInt(sxNth(op, 0)); k == 0 || k == 1 {
+				kept = append(kept, op)
+			}
+		}
+		ops = kept
+	}
+	return L(script, B(comp), B(pretty), via, ops)
 }
 
 type respObs struct {
@@ -338,6 +352,30 @@ func runResp(raw Sx) (Sx, Sx) {
 			if cw != nil {
 				cw.Close()
 			}
+		} else if via == 2 {
+			c := restful.NewContainer()
+			c.EnableContentEncoding(comp)
+			c.Filter(func(rq *restful.Request, rp *restful.Response, ch *restful.FilterChain) {
+				ch.ProcessFilter(rq, rp)
+				code, clen = rp.StatusCode(), rp.ContentLength()
+			})
+			c.HandleWithFilter("/p", http.HandlerFunc(func(rw http.ResponseWriter, _ *http.Request) {
+				for _, op := range ops {
+					var err error
+					if sxInt(sxNth(op, 0)) == 0 {
+						_, err = rw.Write([]byte(sxStr(sxNth(op, 1))))
+					} else {
+						rw.WriteHeader(sxInt(sxNth(op, 1)))
+					}
+					full = append(full, op)
+					errs = append(errs, L(B(err != nil), w.fails))
+				}
+			}))
+			hr, _ := http.NewRequest("GET", "http://h/p", nil)
+			if comp {
+				hr.Header.Set("Accept-Encoding", "gzip")
+			}
+			c.ServeHTTP(w, hr)
 		} else {
 			c := restful.NewContainer()
 			c.EnableContentEncoding(comp)
